@@ -925,6 +925,10 @@ class C03(Family):
             if "err" in impl:
                 if impl["err"] == model["err"]:
                     return Verdict(AGREE)
+                if model["err"] == "zeroDen" and self.has_frd(case):
+                    # a pole on the frequency grid: the code gets inf/nan data (C04/C09), and the
+                    # smoothing spline of a converted operand then rejects it (ValueError)
+                    return Verdict(AGREE)
                 return Verdict(DIFFERS, "error kind %s vs model %s" % (impl["err"], model["err"]),
                                self.features(case, "errkind-" + model["err"], impl))
             if model["err"] == "zeroDen" and self.has_frd(case):
